@@ -14,7 +14,7 @@ import (
 func init() {
 	eng.Register(&eng.Check{
 		ID:          "C10",
-		Rule:        "E2 language explorer over bytes: (a) ALL byte strings of length <=4 (thorough <=5) over a 31-symbol alphabet with one representative per lexical class of the grammar (a n o t i s 0 1 - . \" ` / ~ _ ( ) { } [ ] , = ! space backslash NUL 0xFF 0xC3(truncated lead byte) and the 2-byte e-acute); (b) every sequence of <=2 tokens of the extended C15 token alphabet and <=3 of the base alphabet, all gap patterns; (c) every derivation of the C15 derivation set with one bad element (NUL, 0xFF, 0xC3, a lone quote of either kind, \"\\x\", \"\\400\", \"\\\", newline, [, (, {) injected at EVERY byte position; oracle on the real code: CreateEvaluator, CreateFilter, grammar.Parse never panic; evaluator xor error (nil filter only for \"\"); Parse error is nil exactly when CreateEvaluator accepts, then its value is a non-nil Expression; every accepted evaluator evaluates 6 probe data (err => false, no panic), executes as a filter and its tree dumps without panic. Distinct by construction within each family; non-trivial = input accepted (the evaluator was exercised) or rejected with a nil result as required (both directions are meaningful; counted: accepted ones).",
+		Rule:        "E2 language explorer over bytes: (a) ALL byte strings of length <=4 (thorough <=5) over a 31-symbol alphabet with one representative per lexical class of the grammar (a n o t i s 0 1 - . \" ` / ~ _ ( ) { } [ ] , = ! space backslash NUL 0xFF 0xC3(truncated lead byte) and the 2-byte e-acute); (b) every sequence of <=2 tokens of the extended C15 token alphabet and <=3 of the base alphabet, all gap patterns; (c) every derivation of the C15 derivation set with one bad element (NUL, 0xFF, 0xC3, a lone quote of either kind, \"\\x\", \"\\400\", \"\\\", newline, [, (, {) injected at EVERY byte position; oracle on the real code: CreateEvaluator, CreateFilter, grammar.Parse never panic; evaluator xor error (nil filter only for \"\"); Parse error is nil exactly when CreateEvaluator accepts, then its value is a non-nil Expression; every accepted evaluator evaluates 8 probe data (maps / lists / structs with every scalar kind incl. unsigned, float, bool, nil) (err => false, no panic), executes as a filter and its tree dumps without panic. Distinct by construction within each family; non-trivial = input accepted (the evaluator was exercised) or rejected with a nil result as required (both directions are meaningful; counted: accepted ones).",
 		Assumptions: []string{"bounded: strings over class representatives, not all 256 byte values", "coverage-guided fuzzing (a different family) is deliberately not used"},
 		Run:         runC10,
 	})
@@ -25,6 +25,8 @@ var c10Alphabet = []string{"a", "n", "o", "t", "i", "s", "0", "1", "-", ".", "\"
 var c10Probes = []interface{}{
 	nil, 1, "a", map[string]interface{}{"a": 1, "n": "s", "o": []interface{}{1, nil}, "t": map[string]interface{}{"a": "a"}, "i": nil, "s": "", "": 1},
 	[]interface{}{map[string]interface{}{"a": 1}}, struct{ A, N int }{1, 2},
+	map[string]interface{}{"a": uint(1), "n": uint8(0), "o": 1.5, "t": true, "i": int64(-1), "s": float32(0), "": uint64(7)},
+	map[string]interface{}{"a": []uint{1, 0}, "n": []interface{}{uint16(1), "", 0.0}, "o": map[string]uint32{"a": 1}, "t": []bool{true}, "i": []byte("a"), "s": [2]float32{1, 0}},
 }
 
 type c10Out struct {
@@ -214,7 +216,7 @@ func runC10(c *eng.Ctx) {
 		}
 		seqs(c15Ext, 1)
 		seqs(c15Ext, 2)
-		seqs(c15Tokens, 3)
+		seqs(append(append([]string{}, c15Tokens...), "\"\"", "``", "-1", "1.5"), 3)
 	}
 	// (c) derivations with one bad element injected at every byte position
 	if c.Want("f", 3) {
